@@ -174,9 +174,9 @@ func goValueFor(r *gen.Rng, s *ast.Schema, t *ast.Type, depth int) interface{} {
 func runC15(c *core.Ctx) {
 	const thm = "C15_* (props/C15.v); model op argmap = Ops.dump_argmap_with"
 	c.ReplayKnown()
-	nSchemas, per := 40, 30
+	nSchemas, per := 250, 40
 	if !c.Quick {
-		nSchemas, per = 400, 60
+		nSchemas, per = 3000, 60
 	}
 	type cs struct {
 		srcs        []string
